@@ -140,23 +140,17 @@ FIT_ITEMS = [
     ('initial intercept from the brightest population', 'PARAMS[1] = np.log(fl_mef[-1]) - PARAMS[0] * np.log(fl_rfi[-1])'),
     ('initial autofluorescence from the dimmest population', 'PARAMS[2] = np.exp(PARAMS[0] * np.log(fl_rfi[0]) + PARAMS[1]) - fl_mef[0]'),
     ('parameter vector has three fresh entries', 'PARAMS = np.zeros(3)'),
-    ('error: squared log-space residual of m*log(rfi)+b = log(mef+auto)',
-     'return np.sum((np.log(Y + P1[2]) - (P1[0] * np.log(X1) + P1[1])) ** 2)'),
-    ('bead model: exp(m*log(x)+b) - auto', 'return np.exp(P2[0] * np.log(X2) + P2[1]) - P2[2]'),
-    ('standard curve: sign(x)*exp(b)*|x|**m (odd, zero at zero)', 'return np.sign(X3) * np.exp(P3[1]) * np.abs(X3) ** P3[0]'),
-    ('the error is evaluated on the given bead pairs', 'EP = lambda PP: EF(PP, fl_rfi, fl_mef)'),
+    ('the error minimised is the squared log-space residual of m*log(rfi)+b = log(mef+auto) on the given bead pairs',
+     'EP = lambda PP: np.sum((np.log(fl_mef + PP[2]) - (PP[0] * np.log(fl_rfi) + PP[1])) ** 2)'),
     ('minimisation from the initial guess with the autofluorescence bounded below by 0 and nothing else bounded',
      "RES = minimize(EP, PARAMS, bounds=((None, None), (None, None), (0, None)), options={'gtol': 1e-10, 'ftol': 1e-10})"),
     ('fitted parameters are the minimiser\'s solution', 'BP = RES.x'),
-    ('returned bead model uses the fitted parameters', 'BM = lambda XM: FF(BP, XM)'),
-    ('returned standard curve uses the same fitted parameters', 'SCV = lambda XS: SF(BP, XS)'),
+    ('returned bead model: exp(m*log(x)+b) - auto with the fitted parameters', 'BM = lambda XM: np.exp(BP[0] * np.log(XM) + BP[1]) - BP[2]'),
+    ('returned standard curve: sign(x)*exp(b)*|x|**m (odd, zero at zero) with the same fitted parameters',
+     'SCV = lambda XS: np.sign(XS) * np.exp(BP[1]) * np.abs(XS) ** BP[0]'),
     ('outputs in the documented order', 'return (SCV, BM, BP, BMS, BPN)'),
 ]
-FIT_METAS = {m: m for m in ['PARAMS', 'Y', 'EP', 'EF', 'RES', 'BP', 'BM', 'FF', 'SCV', 'SF', 'BMS', 'BPN', 'PP', 'XM', 'XS']}
-for _m in ('P1', 'P2', 'P3'):
-    FIT_METAS[_m] = 'P'
-for _m in ('X1', 'X2', 'X3'):
-    FIT_METAS[_m] = 'X'
+FIT_METAS = {m: m for m in ['PARAMS', 'EP', 'RES', 'BP', 'BM', 'SCV', 'BMS', 'BPN', 'PP', 'XM', 'XS']}
 
 
 def fit_model(cx):
@@ -172,21 +166,8 @@ def fit_model(cx):
         ok = len(g) == 1 and bool(first) and guard_dominates(fn, g[0], False, first[0])
         fn.ob('GUARD', inst, ok, g[0] if g else fn.ast, key=key)
     b = inventory(fn, 'FORMULA', FIT_ITEMS, FIT_METAS)
-    # the three helper functions are the ones the lambdas call
-    defs = {f.name: f for f in fn.stmts(ast.FunctionDef)}
-    for m, inst in (('EF', 'error function'), ('FF', 'bead model function'), ('SF', 'standard curve function')):
-        if m in b:
-            nm = b[m][1]
-            ok = nm in defs
-            fn.ob('FORMULA', 'the %s used is the one defined with the documented body' % inst, ok, defs.get(nm, fn.ast), key='helper-' + m)
-    if all(k in b for k in ('EF', 'FF', 'SF')):
-        want = {'EF': 'error: squared', 'FF': 'bead model: exp', 'SF': 'standard curve: sign'}
-        for m, frag in want.items():
-            f = defs.get(b[m][1])
-            rets = [s for s in (f.body if f else []) if isinstance(s, ast.Return)]
-            item = [i for i in FIT_ITEMS if i[0].startswith(frag)][0]
-            ok = len(rets) == 1 and sym.unify(sym.parse_pattern(item[1]), sym.stmt_nf(rets[0]), {}, FIT_METAS) is not None
-            fn.ob('FORMULA', 'helper %s has exactly the documented return' % b[m][1], ok, rets[0] if rets else fn.ast, key='helper-body-' + m)
+    # (helper functions, nested defs or lambdas, are inlined into the statements that call them: the items above
+    #  are written in the inlined form and match whether or not the code uses helpers)
     # fitted parameter vector is not shared between calls: nothing assigns into it after the fit
     if 'BP' in b:
         bp = b['BP'][1]
